@@ -303,3 +303,122 @@ UNITS = [VUnit("c07_stack", ["C07", "C01", "C17", "C10", "C08", "C09", "C19"], "
 UNITS[0].assumes = ["Gc<GcCell<..>> as an explicit heap of cells (R10): a handle denotes a cell, clones alias it, PrimitiveFlagsPair::new allocates an unused cell; flags are fixed per cell",
                     "HashMap<String, _> as a finite map; label classification (SpecialScope::is_label_special_scope) abstract",
                     "Display: write! of the three fixed formats is modelled as appending one piece; the texts `\\t>> ` / `\\r\\n\\t ^ ` themselves are not compared"]
+
+
+# =====================================================================================================================
+# the remaining frame operations of Stack: extend, pop, size, ref_variable, delete_variable_local, register_variable, find_name_in_function
+FRAME_SPEC = r"""
+impl Vars {
+    #[verifier::external_body] pub fn remove(&mut self, name: &VString) -> (r: Option<Handle>)
+        ensures r is Some <==> vars(old(self)).contains_key(text_of(name)), r is Some ==> r->Some_0 == vars(old(self))[text_of(name)] && vars(final(self)) == vars(old(self)).remove(text_of(name)),
+                r is None ==> vars(final(self)) == vars(old(self)) { unimplemented!() }
+}
+#[verifier::external_body] pub fn empty_vars() -> (r: Vars) ensures vars(&r) == Map::<Seq<char>, Handle>::empty() { unimplemented!() }          // VariableMapping::default()
+#[verifier::external_body] pub fn cow_into_owned(s: VString) -> (r: VString) ensures text_of(&r) == text_of(&s) { unimplemented!() }
+pub fn flags_none() -> (r: VariableFlags) ensures r.0 == 0 { VariableFlags(0) }
+// what `load_fast` / `store`'s lookup of a name of the EXECUTING FUNCTION finds: innermost frame first, through the block frames of the function up to and
+// including the function's own frame -- not beyond -- skipping handles marked frame-exclusive (-1: none)
+pub open spec fn fnfind_frame(fr: Seq<StackFrame>, name: Seq<char>, i: int) -> int decreases i {
+    if i <= 0 || i > fr.len() { -1 }
+    else if vars(&fr[i - 1].variables).contains_key(name) && !(flags_of(&vars(&fr[i - 1].variables)[name]).0 & local_bit() == local_bit()) { i - 1 }
+    else if vars(&fr[i - 1].variables).contains_key(name) { fnfind_frame(fr, name, i - 1) }         // exclusive to that frame: the search goes on (also past a function frame: the code `continue`s)
+    else if !special(text_of(&fr[i - 1].label)) { -1 }
+    else { fnfind_frame(fr, name, i - 1) }
+}
+"""
+
+
+def build_frames(repo):
+    src = Source(repo)
+    log = []
+    common = [
+        Rule("R3", "bail ! $a", "return Err ( VErr )", why="bail! -> return Err"),
+        Rule("R3", "log :: trace ! $a ;", "", why="logging dropped"),
+        Rule("R1", "SpecialScope :: is_label_special_scope ( & $f . label )", "is_label_special_scope ( & $f . label )", why="label test abstract"),
+    ]
+    fns = {}
+    fns["extend"] = translate(list(src.fn(FILE, "extend", "impl Stack")["body"]), common + [
+        Rule("R1", "VariableMapping :: default ( )", "empty_vars ( )", why="an empty variable mapping")], log, "Stack::extend")
+    fns["size"] = translate(list(src.fn(FILE, "size", "impl Stack")["body"]), common, log, "Stack::size")
+    fns["pop"] = translate(list(src.fn(FILE, "pop", "impl Stack")["body"]), common + [
+        Rule("R8", "let popped = self . 0 . pop ( ) . expect ( $m ) ;", "let popped = self . 0 . pop ( ) . unwrap ( ) ;", why="expect: a panic precondition (R8: a frame exists)")], log, "Stack::pop")
+    fns["ref_variable"] = translate(list(src.fn(FILE, "ref_variable", "impl Stack")["body"]), common + [
+        Rule("R13", "let stack_frame = self . 0 . last_mut ( ) . expect ( $m ) ; let variables = & mut stack_frame . variables . 0 ; variables . insert ( name . into_owned ( ) , var ) ;",
+             "let mut verif_top = self . 0 . pop ( ) . unwrap ( ) ; verif_top . variables . insert ( cow_into_owned ( name ) , var ) ; self . 0 . push ( verif_top ) ;", count=1,
+             why="&mut into the last frame -> take / mutate / put back (expect: R8)")], log, "Stack::ref_variable")
+    fns["delete_variable_local"] = translate(list(src.fn(FILE, "delete_variable_local", "impl Stack")["body"]), common + [
+        Rule("R13", "let frame = self . 0 . last_mut ( ) . expect ( $m ) ; frame . variables . 0 . remove ( name ) . ok_or ( $$e )",
+             "let mut verif_top = self . 0 . pop ( ) . unwrap ( ) ; let verif_r = verif_top . variables . remove ( name ) ; self . 0 . push ( verif_top ) ; verif_r . ok_or ( VErr )", count=1,
+             why="&mut into the last frame -> take / mutate / put back (expect: R8); error text dropped")], log, "Stack::delete_variable_local")
+    fns["register_variable"] = translate(list(src.fn(FILE, "register_variable", "impl Stack")["body"]), common + [
+        Rule("R1", "VariableFlags :: none ( )", "flags_none ( )", why="no flags"),
+        Rule("R10", "self . register_variable_flags ( name , var , $$f )", "self . register_variable_flags ( name , var , $$f , heap )", why="heap threaded (R10)")], log, "Stack::register_variable")
+    invf = ("invariant_except_break $K <= self.0@.len(), fnfind_frame(self.0@, text_of(name), self.0@.len() as int) == fnfind_frame(self.0@, text_of(name), $K as int) "
+            "invariant true ensures fnfind_frame(self.0@, text_of(name), self.0@.len() as int) == -1 decreases $K")
+    fns["find_name_in_function"] = translate(list(src.fn(FILE, "find_name_in_function", "impl Stack")["body"]), common + [
+        Rule("R2", "for $x in self . 0 . iter ( ) . rev ( ) { $$body }", rev_loop("ff", invf), count=1, why="for over iter().rev() -> index counting down (innermost frame first)")], log, "Stack::find_name_in_function")
+    for k, v in fns.items():
+        check_closed(v, f"Stack::{k}")
+    gen = header(log, f"{FILE}: Stack::extend, pop, size, ref_variable, delete_variable_local, register_variable, find_name_in_function") + SPEC + FRAME_SPEC + f"""
+impl Stack {{
+    // Stack::register_variable_flags: obligation C07.stack.store (unit c07_stack)
+    #[verifier::external_body] pub fn register_variable_flags(&mut self, name: VString, var: Primitive, flags: VariableFlags, heap: &mut Cells) -> (r: Result<(), VErr>) {{ unimplemented!() }}
+    //@ OBL C09.stack.extend
+    pub fn extend(&mut self, label: VString)
+        ensures final(self).0@.len() == old(self).0@.len() + 1, final(self).0@.subrange(0, old(self).0@.len() as int) == old(self).0@,
+                final(self).0@.last().label == label, vars(&final(self).0@.last().variables) == Map::<Seq<char>, Handle>::empty(),       // ONE new frame, with that label, holding no variable; the others untouched
+    {{
+{render(fns['extend'], 2)}
+    }}
+    //@ OBL C09.stack.size
+    pub fn size(&self) -> (r: usize) ensures r == self.0@.len()
+    {{
+{render(fns['size'], 2)}
+    }}
+    //@ OBL C09.stack.pop
+    pub fn pop(&mut self)
+        requires old(self).0@.len() > 0,               // `expect`: a pop without a frame panics -- the interpreter's frame discipline (C09.run.step) must rule it out
+        ensures final(self).0@ == old(self).0@.drop_last(),          // exactly the innermost frame goes
+    {{
+{render(fns['pop'], 2)}
+    }}
+    //@ OBL C07.stack.ref_variable
+    pub fn ref_variable(&mut self, name: VString, var: Handle)
+        requires old(self).0@.len() > 0,
+        ensures final(self).0@.len() == old(self).0@.len(), final(self).0@.drop_last() == old(self).0@.drop_last(), final(self).0@.last().label == old(self).0@.last().label,
+                vars(&final(self).0@.last().variables) == vars(&old(self).0@.last().variables).insert(text_of(&name), var),               // the name is bound to THAT cell, in the innermost frame only
+    {{
+{render(fns['ref_variable'], 2)}
+    }}
+    //@ OBL C15.stack.delete_variable_local
+    pub fn delete_variable_local(&mut self, name: &VString) -> (r: Result<Handle, VErr>)
+        requires old(self).0@.len() > 0,
+        ensures r is Ok <==> vars(&old(self).0@.last().variables).contains_key(text_of(name)),
+                r is Ok ==> r->Ok_0 == vars(&old(self).0@.last().variables)[text_of(name)] && vars(&final(self).0@.last().variables) == vars(&old(self).0@.last().variables).remove(text_of(name)),
+                r is Err ==> vars(&final(self).0@.last().variables) == vars(&old(self).0@.last().variables),
+                final(self).0@.len() == old(self).0@.len(), final(self).0@.drop_last() == old(self).0@.drop_last(), final(self).0@.last().label == old(self).0@.last().label,
+    {{
+{render(fns['delete_variable_local'], 2)}
+    }}
+    //@ OBL C07.stack.find_name_in_function
+    pub fn find_name_in_function(&self, name: &VString) -> (r: Option<Handle>)
+        ensures ({{ let k = fnfind_frame(self.0@, text_of(name), self.0@.len() as int);
+            (k >= 0 <==> r is Some) && (k >= 0 ==> r->Some_0 == vars(&self.0@[k].variables)[text_of(name)]) }}),
+    {{
+{render(fns['find_name_in_function'], 2)}
+    }}
+}}
+}} // verus!
+fn main() {{}}
+"""
+    obls = [Obl("C09.stack.extend", ["C09", "C01"], fn="Stack::extend", desc="Stack::extend: one new frame with that label and no variables; the others untouched"),
+            Obl("C09.stack.size", ["C09"], fn="Stack::size", desc="Stack::size: the number of frames"),
+            Obl("C09.stack.pop", ["C09", "C01"], fn="Stack::pop", desc="Stack::pop: exactly the innermost frame goes (a pop without a frame panics: precondition)"),
+            Obl("C07.stack.ref_variable", ["C07", "C11"], fn="Stack::ref_variable", desc="Stack::ref_variable: the name is bound to that very cell, in the innermost frame only"),
+            Obl("C15.stack.delete_variable_local", ["C15", "C01"], fn="Stack::delete_variable_local", desc="Stack::delete_variable_local: removes the name from the innermost frame and hands its cell back; a missing name fails and changes nothing"),
+            Obl("C07.stack.find_name_in_function", ["C07", "C01"], fn="Stack::find_name_in_function", desc="Stack::find_name_in_function: innermost frame first, through the function's block frames up to its own frame, not beyond")]
+    return gen, obls, log
+
+
+UNITS.append(VUnit("c07_stack_frames", ["C07", "C09", "C01", "C15", "C11"], "call stack: frames pushed / popped, names bound / deleted / found within the function", build_frames))
+UNITS[-1].assumes = UNITS[0].assumes
